@@ -692,7 +692,7 @@ def filter_cases(ck, m, tag, cap=24):
     from chython.algorithms import rings as R
     nu = m.rings_count
     if nu < 1:
-        return '', []
+        return '', [], False
     bonds = R._skin_graph(m.not_special_connectivity)
     cands = [tuple(c) for c in R._c_set(*R._make_pid(R._bfs(bonds)))]
     log = []
@@ -741,7 +741,7 @@ def filter_cases(ck, m, tag, cap=24):
                 continue
             e = 'None' if out is None else f'(Some {zl(out)})'
             cases.append(('corr', tag, '_get_unique_chord' + repr(arg)[:200], f'c_guc {zl(arg[0])} {zl(arg[1])} {e}'))
-    return defs, cases
+    return defs, cases, bool(log)
 
 
 def helper_cases(ck, rng, rings_pool):
@@ -1224,8 +1224,9 @@ def run(ck):
     ck.assumptions += [
         'the SSSR selection (_bfs, _make_pid, _c_set, _rings_filter, _is_condensed_ring, _connected_rings) is NOT modelled; every sssr output of the '
         'inputs is run through the verified checker is_cycle_basis instead (theorems C06_basis_checker_sound / _complete)',
-        'minimum total size and numbering independence of the ring-size multiset are search results (reference: mcb_ref inside Coq on molecules '
-        '<= 26 atoms / 8 rings, and a pure-Python Horton implementation on all), not theorems; minimality of mcb_ref itself is not proved (proved: it is a cycle basis of every well-formed graph, and minimum among independent families of its own candidates)',
+        'minimum total size of sssr is certified PER MOLECULE: is_cycle_basis g sssr && total_size sssr = total_size (mcb_ref g) is evaluated inside Coq '
+        'on molecules <= 26 atoms / 8 rings (theorem C06_minimum_certificate: then sssr is a minimum cycle basis); on larger molecules and for '
+        'numbering independence it is a search result (pure-Python Horton size vector on every input, rebuilds under renumbering)',
         'set iteration order (set.pop in _connected_components) is an explicit input of the model and the theorem holds for every order; '
         'set-valued results are compared after sorting',
         'gap families of the property text are recognised structurally (a block containing two cycles that share exactly one path, all three '
@@ -1239,7 +1240,7 @@ def run(ck):
     import time
     t0 = time.time()
     timing = ck.extra.setdefault('timing_s', {})
-    proved = common.standard_proof_steps(ck, translators=[], extra_targets=['model/RingsFilter.vo'])   # C06 depends on no generated table
+    proved = common.standard_proof_steps(ck, translators=[], extra_targets=[])   # C06 depends on no generated table
     timing['proof build + audit'] = round(time.time() - t0, 1)
     t0 = time.time()
     quick = ck.tier == 'quick'
@@ -1276,7 +1277,16 @@ def run(ck):
                 sent.add(tag)
                 n_coq += 1
                 if len(m) <= 70:
-                    batch.add(*filter_cases(ck, m, tag))
+                    fd, fc, reached = filter_cases(ck, m, tag)
+                    batch.add(fd, fc)
+                    if reached:
+                        # the model iterates sets of atom numbers in sorted order, CPython in hash order: the same molecule
+                        # under renumberings that spread the numbers (so that the two orders differ) must still agree
+                        for t in range(3):
+                            r2 = corpus.renumber(m, rng) if False else rebuild(m, rng, spread=True)[0]
+                            fd, fc, _ = filter_cases(ck, r2, tag + f' selection-renumbered#{t}')
+                            batch.add(fd, fc)
+                            ck.count('selection phase: renumbered copies')
             except Exception as e:  # sssr raising is already reported by the search
                 stats[f'not sent to Coq ({type(e).__name__})'] += 1
         for t in range(renumber):
@@ -1329,7 +1339,7 @@ def run(ck):
             sizes = search_one(ck, m, f'graph{n}:{es}', fam, stats=stats)
             if n <= (4 if quick else 5) or first:
                 batch.add(*mol_cases(m, f'graph{n}:{es}', fam))
-                batch.add(*filter_cases(ck, m, f'graph{n}:{es}'))
+                batch.add(*filter_cases(ck, m, f'graph{n}:{es}')[:2])
                 sent.add(f'graph{n}:{es}')
                 n_coq += 1
                 if first and n >= 4:
